@@ -26,6 +26,12 @@ type vStream struct {
 	// endErr != nil: once the data is used up every Read fails with this error
 	// (a transport fault that persists) instead of reporting io.EOF
 	endErr error
+	// failOnce > 0: exactly this Read call (1-based) fails with failOnceErr
+	// and delivers nothing; the calls before and after it are served as usual
+	// (an expired read deadline that the embedder's wrapper then extends)
+	failOnce    int
+	failOnceErr error
+	failedOnce  bool
 }
 
 // vTimeoutErr is a transport error of the timeout kind (what an expired read
@@ -63,6 +69,10 @@ func (s *vStream) Read(p []byte) (int, error) {
 	avail := len(s.data) - s.pos
 	if len(p) == 0 {
 		return 0, nil
+	}
+	if s.failOnce > 0 && s.reads == s.failOnce && avail > 0 {
+		s.failedOnce = true
+		return 0, s.failOnceErr
 	}
 	if avail == 0 {
 		if s.endErr != nil {
